@@ -9,6 +9,7 @@ import ThruVerif.Driver.ScanCmd
 import ThruVerif.Driver.AuthCmd
 import ThruVerif.Driver.UrlCmd
 import ThruVerif.Driver.HubCmd
+import ThruVerif.Driver.ServerCmd
 import ThruVerif.Model.Budget
 /-!
 `tvdriver`: one case per input line, one result per output line. The same lines are given to the Go
@@ -48,6 +49,10 @@ def handle (line : String) : String :=
   | "auth" :: ws => handleAuth ws
   | "url" :: ws => handleUrl ws
   | "hub" :: ws => handleHub ws
+  | "store" :: ws => handleStore ws
+  | "srv" :: ws => handleSrv ws
+  | "bucket" :: ws => handleBucket ws
+  | "connlim" :: ws => handleConnLim ws
   | "topnames" :: ws => handleTopNames ws
   | "scser" :: ws => handleScSer ws
   | "scload" :: ws => handleScLoad ws
